@@ -223,8 +223,11 @@ func c11Scripted(res *vlib.Result, v c11Tok, dev peerDev) {
 	}
 	res.Nontrivial++
 	valid, sub, why := refVerify(v.tok, time.Now().Unix())
-	honest := (dev.TokProof == "" || dev.TokProof == "for-other-id") && dev.TokRBEcho == "" && !dev.TokTrail
+	honest := (dev.TokProof == "" || dev.TokProof == "for-other-id") && dev.TokRBEcho == "" && !dev.TokTrail && dev.TokStep1 == ""
 	class := fmt.Sprintf("token=%s/claim=%s/proof=%s/echo=%s/trail=%v", v.name, map[bool]string{true: "sub", false: "other"}[dev.TokClaim == ""], dev.TokProof, dev.TokRBEcho, dev.TokTrail)
+	if dev.TokStep1 != "" {
+		class = fmt.Sprintf("token=%s/step1=%s", v.name, dev.TokStep1)
+	}
 	if r.S.Err == nil && r.S.Neg != nil {
 		switch {
 		case !valid:
@@ -241,7 +244,7 @@ func c11Scripted(res *vlib.Result, v c11Tok, dev peerDev) {
 		res.Violate("C11/server-rejects-valid-client/scripted/"+class, "%s: a correct exchange with a valid token was refused: %s", label, errStr(r.S.Err))
 	}
 	// a server that holds the key proves it in step 2 whenever the token is valid
-	if valid && !out.TokServerProofOK && out.TokStep2Status == 0 {
+	if valid && dev.TokStep1 == "" && !out.TokServerProofOK && out.TokStep2Status == 0 {
 		res.Violate("C11/server-proof-wrong/scripted/"+class, "%s: the server's step-2 proof does not verify under the key derived from the token", label)
 	}
 	res.Outcome("scripted-rejected")
@@ -772,7 +775,7 @@ func c11Verify(res *vlib.Result, label, class, tok string) {
 func C11Plan() *vlib.Plan {
 	p := &vlib.Plan{
 		Property: "C11", Level: "fault_enumeration",
-		Rule:   "E-FAULT: (1) 20 token variants and every single-bit flip of a valid token string, each through a real client/server TOKEN handshake (no cipher, so the AKEP2 result is the result); (2) for each of the three AKEP2 messages: every byte offset (header and payload) x {^01,^80}, truncation at every 8th byte, 1/8 trailing bytes appended, for step 1 a field-aware substitution of the claimed client identity by {bob, empty, +1 char}, and field-aware alterations of every field of every message (status := 1/-1/2/256; each proof, nonce and nonce echo := empty / first byte only / last byte dropped / one zero byte added / all zero / length 0 or length-1 with the bytes kept / several bytes changed so that the differences cancel (2 x ^80, 4 x ^40, 16 x ^10, every byte ^80, 2 x ^55); each identity echo := empty / bob / +1 char); (3) VerifyIDToken on the same variants and bit flips; (4) an independent scripted AKEP2 client (own HKDF/HMAC arithmetic) against the real server: 20 token variants (incl. those cedar's client refuses to send) x claimed identity {the subject, bob, root} x proof {honest, empty, wrong, computed over the identity the server echoed} x RB echo {honest, empty, wrong} x {no, one} trailing byte; (5) time claims AT their limits (exp = now-1 / now / now+1, iat = now / now-max / now-max-1) through VerifyIDToken and through the scripted client, each call aligned on a wall-clock second and kept only if the clock still shows that second afterwards; (6) every token variant with TOKEN and SSL listed on both sides: when the token exchange fails and SSL completes the handshake, the failed token's subject must not become the session's identity; (7) all pairs of successive VerifyIDToken calls over 7 tokens (incl. tokens under named keys of 33 and 6 bytes and forgeries signed with those keys' 4-aligned, zero-padded prefixes) x 4 verifier configurations (usual; one whose credential reader caches and hands out the same bytes on every load; another key under the same key id; shorter maximum age): each verdict is that of the reference for its own configuration, whatever was verified before. Oracle: independent HKDF+HMAC verifier with the same time rules (variants sit 120 s away from the limits); server success => token valid and no client message altered outside the claimed-identity field; client success => server message unaltered; recorded user = token subject. Non-trivial = the mutated element reached the receiving side.",
+		Rule:   "E-FAULT: (1) 20 token variants and every single-bit flip of a valid token string, each through a real client/server TOKEN handshake (no cipher, so the AKEP2 result is the result); (2) for each of the three AKEP2 messages: every byte offset (header and payload) x {^01,^80}, truncation at every 8th byte, 1/8 trailing bytes appended, for step 1 a field-aware substitution of the claimed client identity by {bob, empty, +1 char}, and field-aware alterations of every field of every message (status := 1/-1/2/256; each proof, nonce and nonce echo := empty / first byte only / last byte dropped / one zero byte added / all zero / length 0 or length-1 with the bytes kept / several bytes changed so that the differences cancel (2 x ^80, 4 x ^40, 16 x ^10, every byte ^80, 2 x ^55); each identity echo := empty / bob / +1 char); (3) VerifyIDToken on the same variants and bit flips; (4) an independent scripted AKEP2 client (own HKDF/HMAC arithmetic) against the real server: 20 token variants (incl. those cedar's client refuses to send) x claimed identity {the subject, bob, root} x proof {honest, empty, wrong, computed over the identity the server echoed} x RB echo {honest, empty, wrong} x {no, one} trailing byte, and a client that sends step 1 in a frame not marked end-of-message followed by an invalid frame header or a close and never presents a proof; (5) time claims AT their limits (exp = now-1 / now / now+1, iat = now / now-max / now-max-1) through VerifyIDToken and through the scripted client, each call aligned on a wall-clock second and kept only if the clock still shows that second afterwards; (6) every token variant with TOKEN and SSL listed on both sides: when the token exchange fails and SSL completes the handshake, the failed token's subject must not become the session's identity; (7) all pairs of successive VerifyIDToken calls over 7 tokens (incl. tokens under named keys of 33 and 6 bytes and forgeries signed with those keys' 4-aligned, zero-padded prefixes) x 4 verifier configurations (usual; one whose credential reader caches and hands out the same bytes on every load; another key under the same key id; shorter maximum age): each verdict is that of the reference for its own configuration, whatever was verified before. Oracle: independent HKDF+HMAC verifier with the same time rules (variants sit 120 s away from the limits); server success => token valid and no client message altered outside the claimed-identity field; client success => server message unaltered; recorded user = token subject. Non-trivial = the mutated element reached the receiving side.",
 		Assume: []string{"base64 decoding is shared with the code (non-canonical trailing bits that decode identically are the same token)", "time-dependent variants are 120 s away from the boundary"},
 	}
 	p.Gen = func(tier string, yield func(vlib.Case)) {
@@ -783,6 +786,10 @@ func C11Plan() *vlib.Plan {
 				res := &vlib.Result{}
 				c11Handshake(res, "token variant "+v.name, "variant-"+v.name, v.tok)
 				c11Verify(res, "token variant "+v.name, "variant-"+v.name, v.tok)
+				// a client that never gets past step 1 (and so never presents a proof)
+				for _, s1 := range []string{"no-eom-then-bad-header", "no-eom-then-close"} {
+					c11Scripted(res, v, peerDev{TokStep1: s1})
+				}
 				res.Sample = v.name
 				return res
 			}})
